@@ -183,6 +183,17 @@ def make_pair(net, variant, rng):
         b["estimation"]["sequential_filter"]["dynamics_model"] = "special_perturbations" if model == "two_body" else "two_body"
     elif variant == "maneuver_detection":
         b["estimation"]["sequential_filter"]["maneuver_detection"] = {"name": "sliding_nis", "threshold": 0.05, "window_size": 2}
+    elif variant == "late_join_same_state":
+        # NOT part of the decided workload (not in VARIANTS): "present from the start" versus "joined by an event" is not something the
+        # property states, and a target_addition event stores only id, state and station keeping, so mass / cross-section /
+        # reflectivity configured in the event fall back to defaults (seen as a 1e-10 km/s^2 SRP difference). Kept for exploration.
+        # run A: satellite 19800 is there from the start. Run B: it joins in step j (target_addition event) with exactly the state it
+        # has in run A at the beginning of that step; from then on its truth depends on the dynamics and that state only.
+        rx, vx = sk.circ_state(7450.0, 58.0, 140.0, 75.0)
+        xcfg = sk.target_cfg(19800, rx, vx)
+        xcfg["platform"].update({"mass": 250.0, "visual_cross_section": 12.0, "reflectivity": 0.3})
+        a["engines"][0]["targets"].append(xcfg)
+        kb["_late_join"] = {"id": 19800, "j": rng.randrange(2, max(3, n + 1)), "cfg": copy.deepcopy(xcfg)}
     elif variant == "id_reused_after_removal":
         # both runs: target 19700 joins at step j. Run B only: another satellite carried the id 19700 from the start and was
         # removed at step i < j. From step j on the truth of 19700 depends only on the dynamics and the state it joined with.
@@ -231,6 +242,20 @@ def eval_pair(ctx, net, variant, rng_seed):
     a, ka, b, kb = make_pair(net, variant, rng)
     wit = {"kind": "c10", "net": net, "variant": variant, "rng_seed": rng_seed}
     ta, ea = trajectory(a, net["nsteps"], **ka)
+    lj = kb.pop("_late_join", None)
+    if lj and not ea:
+        from .. import scenario_kit as sk
+
+        key = (lj["id"], lj["j"] - 1)
+        if key not in ta:
+            ctx.count("late_join_pairs_without_reference_state")
+            return False
+        x = np.frombuffer(ta[key], dtype=float)
+        spec = copy.deepcopy(lj["cfg"])
+        spec["state"] = {"type": "eci", "position": [float(v) for v in x[:3]], "velocity": [float(v) for v in x[3:]]}
+        start = datetime.fromisoformat(net["start"])
+        b["events"].append({"scope": "scenario_step", "scope_instance_id": 0, "start_time": sk.iso(start + timedelta(seconds=net["step"] * (lj["j"] - 1) + max(1, net["step"] // 2))),
+                            "event_type": "target_addition", "tasking_engine_id": 1, "target_agent": spec})
     tb, eb = trajectory(b, net["nsteps"], **kb)
     if ea or eb:
         if "LinAlgError" in (ea or eb) or "invalid numeric entries" in (ea or eb):
@@ -240,6 +265,8 @@ def eval_pair(ctx, net, variant, rng_seed):
         ctx.check(False, "run-raised-" + variant, f"variant '{variant}' run raised: {ea or eb}", wit, mon="truth_bitwise")
         return False
     common = sorted(set(ta) & set(tb))
+    if lj:
+        ctx.count("late_join_states_compared", sum(1 for k in common if k[0] == lj["id"]))
     ctx.mon("pairs_compared")
     bad = [k for k in common if ta[k] != tb[k]]
     steps_a = max((k[1] for k in ta), default=0)
